@@ -1,6 +1,6 @@
 """C03 - taste accepts every well-formed plotfile under every option combination."""
 import itertools
-from .. import scope, vpool
+from .. import scope, vpool, explorer
 from ..common import build, call, exc_text
 from ..runner import Rec, h64
 from . import c01
@@ -11,7 +11,8 @@ RULE = ("case = generated plotfile (C01 universe incl. scattered / non-monotone 
         "where binary_data is enabled because min/max rows of NaN data are undefined); execution = one "
         "Taster(path, limit, 4 option flags, nofail) - must not raise and must evaluate true; non-trivial = every "
         "execution (all are expected to accept), distinct by (descriptor, options)")
-ASSUMPTIONS = ["controlled in-process pool, identity schedule (taste schedules are explored in C12)"]
+ASSUMPTIONS = ["controlled in-process pool; option combinations under the identity schedule, the full validation (all checks enabled) "
+               "additionally under every order of the per-file tasks of each pool call x lazy|eager on multi-file layouts"]
 OPTS = list(itertools.product([True, False], repeat=4))   # headers, shape, data, coords
 
 
@@ -34,7 +35,8 @@ def cases(tier, seed):
             if k in seen:
                 continue
             seen.add(k)
-            out.append({"desc": d2, "w": len(d2["levels"])})
+            nfiles = max(len(l["files"]) if l else 1 for l in d2["layout"])
+            out.append({"desc": d2, "w": len(d2["levels"]) * (3 if nfiles > 1 else 1), "schedules": 2 <= nfiles <= 4})
     return out
 
 
@@ -59,6 +61,21 @@ def run_case(case, workdir):
                     rec.fail("raised", sub, exc_text(val))
                 elif not bool(val):
                     rec.fail("rejected", sub, "bool(Taster) is False on a well-formed plotfile")
+    # every schedule of every pool call of the full validation (headers + shape + data + coordinates)
+    if case.get("schedules"):
+        def run(plan):
+            with vpool.controlled(plan) as ctl:
+                r = call(lambda: Taster(path, binary_data=desc["payload"] != "hostile", boxes_coordinates=True, nofail=False, verbose=0))
+            return ctl, r
+        for plan, ctl, (st, val) in explorer.explore(run, bound=1):
+            if not plan:
+                continue
+            sub = {"options": "all checks enabled", "plan": explorer.plan_json(plan)}
+            rec.exe([dh, sub], nontrivial=True, trans=sum(c["n"] for c in ctl.calls))
+            if st == "exc":
+                rec.fail("raised_under_schedule", sub, exc_text(val))
+            elif not bool(val):
+                rec.fail("rejected_under_schedule", sub, "bool(Taster) is False on a well-formed plotfile")
     rec.sample({"desc": desc, "options": "16 flag combinations x limit x fail/nofail"})
     return rec.result()
 
